@@ -35,7 +35,7 @@ CHECKS = {
             "types/structure.py:StructureMetaType._read",
         ],
         "required_cells": ["compiled:True", "fallback", "align:True", "align:False", "endian:<", "endian:>",
-                           "explicit-offsets", "mixed-modes"],
+                           "explicit-offsets", "mixed-modes", "deep-folded-length-source"],
         "assumptions": ASSUME_COMMON,
     },
 }
@@ -173,7 +173,8 @@ CHECKS["C09"] = {
                        "direct:unbuffered-file", "direct:BytesIO",
                        "direct:forward-only-stream", "text-mode-stream", "direct:mmap",
                        "pointer-table:mmap", "pointer-table:unbuffered-file", "pointer-table:minimal-reader",
-                       "pointer-table:memoryview"],
+                       "pointer-table:memoryview", "pointer-table:slots-reader", "pointer-table:bytes-subclass",
+                       "form:T(bytes-subclass)", "form:T(char-array-value)"],
     "assumptions": ASSUME_COMMON,
 }
 
@@ -257,7 +258,7 @@ CHECKS["C13"] = {
                        "parser.py:TokenParser._struct", "parser.py:TokenParser._typedef", "parser.py:TokenParser._enum",
                        "parser.py:TokenParser._constant", "parser.py:TokenParser._parse_field_type",
                        "parser.py:TokenParser._names", "cstruct.py:cstruct.add_type", "cstruct.py:cstruct.resolve"],
-    "required_cells": ["reordered", "split-loads", "builtin-aliases", "alias-chain", "unknown-alias", "cyclic-alias",
+    "required_cells": ["tagged-typedef-declarators", "shared-local-names:split", "shared-local-names:one-load", "reordered", "split-loads", "builtin-aliases", "alias-chain", "unknown-alias", "cyclic-alias",
                        "keyword-like-field-names", "string-constants", "alias-replace", "boundary:line-ends",
                        "comment-replaces-whitespace", "define-without-value", "alias-of-array-or-pointer-redeclared"],
     "assumptions": ASSUME_COMMON,
@@ -445,7 +446,7 @@ CHECKS["C18"] = {
                        "transition:alignment-grows", "self-reference", "instances-exist-before-extension",
                        "batch-left-by-exception", "discard-fields-sequence", "array-of-intermediate-state", "refused-extension-in-between",
                        "container-declared-before-member-extension",
-                       "explicit-offset-after-dynamic-field", "explicit-offsets-in-later-commits", "straddling-bit-field-in-a-later-commit", "union-written-before-extension", "self-referential-array-member"],
+                       "explicit-offset-after-dynamic-field", "explicit-offsets-in-later-commits", "lone-char-member-then-extended", "straddling-bit-field-in-a-later-commit", "union-written-before-extension", "self-referential-array-member"],
     "assumptions": ASSUME_COMMON,
 }
 
